@@ -211,7 +211,10 @@ type Guar struct {
 	P     []string // positional names: receiver first (methods), then parameters; "" = unnamed
 	Facts []string // what callers learn on the success edge: fact patterns over $<P> and $r0..$rN (may be abstract predicates)
 	Proof []string // clauses the function itself must establish on every success return (default: Facts)
+	FailFacts []string // what callers learn on the failure / false edge (abstract predicates)
+	FailProof []string // clauses the function establishes on every failure / false return
 	facts []*Term
+	failFacts []*Term
 }
 
 type e1 struct {
@@ -243,6 +246,17 @@ func newE1(c *Ctx, guars []*Guar) *e1 {
 		g.facts = nil
 		for _, f := range g.Facts {
 			g.facts = append(g.facts, mustFactPattern(f))
+		}
+		g.failFacts = nil
+		for _, f := range g.FailFacts {
+			g.failFacts = append(g.failFacts, mustFactPattern(f))
+		}
+		e.relevant = append(e.relevant, g.failFacts...)
+		e.addRelevant(g.FailProof...)
+		for _, q := range g.failFacts {
+			if !factPreds[q.S] {
+				abstractFailDefs[q.S] = append(abstractFailDefs[q.S], g)
+			}
 		}
 		e.guars[g.Fn] = g
 		for _, q := range g.facts {
@@ -501,6 +515,7 @@ type e1func struct {
 	subCond   map[types.Object]subCond
 	boolDef   map[types.Object]ast.Expr // boolean locals assigned exactly once: their defining condition
 	noInlineLeaf int
+	opaqueID  int
 	forAll    map[*ast.ForStmt][]*Term // the same for canonical index loops
 }
 
@@ -2391,6 +2406,16 @@ func (f *e1func) leaf(st *fstate, cond ast.Expr, val bool) ([]*Term, bool) {
 				if len(d.A) == 2 && d.A[1].K == "const" && (d.A[1].S == "true" || d.A[1].S == "false") {
 					return nil, (d.A[1].S == "true") == val
 				}
+				if len(d.A) == 2 && d.A[1].K == "op" {
+					// the variable currently holds the value of that boolean expression (evaluated when it was assigned; the
+					// definition is dropped as soon as anything it reads changes): its truth decomposes like a condition
+					if fs, ok := termCondFacts(d.A[1], val); ok {
+						if val {
+							return append(fs, fact("true", xt)), true
+						}
+						return append(fs, fact("false", xt)), true
+					}
+				}
 				if len(d.A) == 2 {
 					// v := <bool expr>: re-express through the definition when it is a call
 					if d.A[1].K == "call" || d.A[1].K == "mcall" {
@@ -2429,7 +2454,7 @@ func (f *e1func) leaf(st *fstate, cond ast.Expr, val bool) ([]*Term, bool) {
 			// what a boolean in-module predicate guarantees when it answers true
 			return append([]*Term{fact("true", ct)}, f.okFacts(st, ct, false)...), true
 		}
-		return []*Term{fact("false", ct)}, true
+		return append([]*Term{fact("false", ct)}, f.failGuarFacts(ct)...), true
 	}
 	ct := f.term(cond)
 	if val {
@@ -2484,6 +2509,9 @@ type solveResult struct {
 // abstractDefs: abstract predicate name -> the guarantees that establish it (their Proof is its definition).
 var abstractDefs = map[string][]*Guar{}
 
+// abstractFailDefs: the same for predicates established on the failure / false edge (definition = FailProof).
+var abstractFailDefs = map[string][]*Guar{}
+
 var expandDepth int
 
 // renameApart returns the pattern with every pattern variable prefixed.
@@ -2519,11 +2547,24 @@ func holdsByDefinition(st *fstate, g *Term) (bool, string) {
 	if expandDepth >= 3 {
 		return false, ""
 	}
+	type defn struct {
+		gu    *Guar
+		facts []*Term
+		proof []string
+	}
+	var defs []defn
 	for _, gu := range abstractDefs[g.S] {
-		if len(gu.Proof) == 0 {
+		defs = append(defs, defn{gu, gu.facts, gu.Proof})
+	}
+	for _, gu := range abstractFailDefs[g.S] {
+		defs = append(defs, defn{gu, gu.failFacts, gu.FailProof})
+	}
+	for _, d := range defs {
+		gu := d.gu
+		if len(d.proof) == 0 {
 			continue
 		}
-		for _, q := range gu.facts {
+		for _, q := range d.facts {
 			if q.S != g.S {
 				continue
 			}
@@ -2532,8 +2573,14 @@ func holdsByDefinition(st *fstate, g *Term) (bool, string) {
 			if !unify(renameApart(q, prefix), g, nb) {
 				continue
 			}
+			// an argument the requirement leaves open stays open in the definition
+			for k, v := range nb {
+				if hasPV(v) {
+					delete(nb, k)
+				}
+			}
 			var clauses []Clause
-			for _, src := range gu.Proof {
+			for _, src := range d.proof {
 				clauses = append(clauses, renameClause(mustClause(src), prefix))
 			}
 			expandDepth++
@@ -2541,6 +2588,9 @@ func holdsByDefinition(st *fstate, g *Term) (bool, string) {
 			expandDepth--
 			if res.ok {
 				return true, "definition of " + g.S + " (guarantee of " + gu.Fn + ")"
+			}
+			if os.Getenv("E1DEBUGDEF") != "" {
+				fmt.Fprintf(os.Stderr, "definition of %s not provable: %s (bind %v)\n", g, res.failed, nb)
 			}
 		}
 	}
@@ -2708,6 +2758,20 @@ func solve(st *fstate, clauses []Clause, b Bind) solveResult {
 				}
 			}
 		}
+		if p.S == "def" && len(p.A) == 3 && hasPV(subst(p.A[0], b)) {
+			// the defined variable is still open: every "x equals result i of call T" recorded for an interpreted helper is a candidate
+			for _, key := range keys {
+				fc := st.facts[key]
+				if fc.S != "eq" || len(fc.A) != 2 || fc.A[1].K != "res" || len(fc.A[1].A) != 1 {
+					continue
+				}
+				virt := fact("def", fc.A[0], fc.A[1].A[0], mk("const", fc.A[1].S))
+				nb := b.clone()
+				if unify(p, virt, nb) && matchAll(pats, i+1, nb, append(used, "by returned value "+virt.String()), k) {
+					return true
+				}
+			}
+		}
 		if holds, decided := builtinHolds(st, p, b); decided {
 			if holds {
 				return matchAll(pats, i+1, b, append(used, "builtin "+subst(p, b).String()), k)
@@ -2811,4 +2875,84 @@ func constValueOf(t *Term) (string, bool) {
 		return t.S, true
 	}
 	return "", false
+}
+
+
+// termCondFacts: the facts implied by a boolean term having the given value (conjunctions when true, disjunctions when
+// false, negation, comparisons, boolean calls); ok=false when the term says nothing definite.
+func termCondFacts(t *Term, val bool) ([]*Term, bool) {
+	if t.K == "op" && len(t.A) == 1 && t.S == "!" {
+		return termCondFacts(t.A[0], !val)
+	}
+	if t.K == "op" && len(t.A) == 2 {
+		switch t.S {
+		case "&&":
+			if val {
+				a, ok1 := termCondFacts(t.A[0], true)
+				b, ok2 := termCondFacts(t.A[1], true)
+				if ok1 || ok2 {
+					return append(a, b...), true
+				}
+			}
+			return nil, false
+		case "||":
+			if !val {
+				a, ok1 := termCondFacts(t.A[0], false)
+				b, ok2 := termCondFacts(t.A[1], false)
+				if ok1 || ok2 {
+					return append(a, b...), true
+				}
+			}
+			return nil, false
+		case "==", "!=":
+			isEq := (t.S == "==") == val
+			for i := 0; i < 2; i++ {
+				if t.A[i].K == "nil" {
+					if isEq {
+						return []*Term{fact("nil", t.A[1-i])}, true
+					}
+					return []*Term{fact("nonnil", t.A[1-i])}, true
+				}
+			}
+			if isEq {
+				return []*Term{fact("eq", t.A[0], t.A[1])}, true
+			}
+			return []*Term{fact("neq", t.A[0], t.A[1])}, true
+		}
+		return nil, false
+	}
+	if t.K == "call" || t.K == "mcall" {
+		if val {
+			return []*Term{fact("true", t)}, true
+		}
+		return []*Term{fact("false", t)}, true
+	}
+	return nil, false
+}
+
+
+// failGuarFacts: the instantiated failure-edge guarantee of a call (abstract predicates declared with FailFacts).
+func (f *e1func) failGuarFacts(call *Term) []*Term {
+	if call.K != "call" && call.K != "mcall" {
+		return nil
+	}
+	g := f.eng.lookupGuar(call)
+	if g == nil || len(g.failFacts) == 0 {
+		return nil
+	}
+	b := Bind{}
+	for i, name := range g.P {
+		if name == "" || i >= len(call.A) {
+			continue
+		}
+		b[name] = call.A[i]
+	}
+	var out []*Term
+	for _, p := range g.failFacts {
+		t := subst(p, b)
+		if !hasPV(t) {
+			out = append(out, t)
+		}
+	}
+	return out
 }
